@@ -458,6 +458,25 @@ func didOps(e *didEnv, v didVariant) []explore.Op {
 			return tx(R2, &didtypes.MsgUpdateDIDRequest{Did: d1, Document: doc, VerificationMethodId: e.vmID(d1, 1), Signature: e.sign(doc, seqOf(m, d1), 1), FromAddress: R2.Bech})
 		}},
 	)
+	// a method id whose fragment itself looks like the DID URL of the OTHER DID (d1#d2#key1): it is a method of d1, nothing else
+	nested := func(did, other string) string { return did + "#" + other + "#key1" }
+	nestedDoc := func(did, other string) *didtypes.DIDDocument {
+		vm := didtypes.NewVerificationMethod(nested(did, other), es256k, did, e.pub(1))
+		d := didtypes.NewDIDDocument(did, didtypes.WithVerificationMethods([]*didtypes.VerificationMethod{&vm}),
+			didtypes.WithAuthentications([]didtypes.VerificationRelationship{didtypes.NewVerificationRelationship(vm.Id)}))
+		return &d
+	}
+	ops = append(ops,
+		explore.Op{Name: "Create(d1,doc with method id d1#d2#key1,k1,via=R1)", Tx: func(w *world.World, m any) *world.TxSpec {
+			doc := nestedDoc(d1, d2)
+			return tx(R1, &didtypes.MsgCreateDIDRequest{Did: d1, Document: doc, VerificationMethodId: nested(d1, d2), Signature: e.sign(doc, 0, 1), FromAddress: R1.Bech})
+		}},
+		explore.Op{Name: "Update(d1,doc with method id d1#d2#key1,proof by d1#d2#key1,k1,via=R2)", Tx: func(w *world.World, m any) *world.TxSpec {
+			doc := nestedDoc(d1, d2)
+			doc.Services = []*didtypes.Service{{Id: "svc", Type: "T", ServiceEndpoint: "https://example.org/n"}}
+			return tx(R2, &didtypes.MsgUpdateDIDRequest{Did: d1, Document: doc, VerificationMethodId: nested(d1, d2), Signature: e.sign(doc, seqOf(m, d1), 1), FromAddress: R2.Bech})
+		}},
+	)
 	if v.Prefix {
 		// two valid DIDs one of which is a strict byte-prefix of the other (ids of 43 and 44 characters)
 		dp, dpm := e.Prefix[0], e.Prefix[1]
